@@ -78,15 +78,16 @@ theorem includeFile_fuel_mono (h : Handler) (fuel : Nat) :
     simp only [includeFile] at hr ⊢
     cases hn : h n with
     | none => simp [hn] at hr
-    | some lines =>
+    | some fd =>
+      obtain ⟨real, lines⟩ := fd
       simp only [hn] at hr ⊢
       split at hr
       · rename_i ho
         simp only [ho, if_true]
-        exact runFile_mono ih n st [] r hr
+        exact runFile_mono ih real st [] r hr
       · rename_i ho
         simp only [ho]
-        exact runFile_mono ih n st lines r hr
+        exact runFile_mono ih real st lines r hr
 
 theorem includeFile_fuel_le (h : Handler) {f g : Nat} (hle : f ≤ g) :
     Extends (includeFile h f) (includeFile h g) := by
@@ -100,7 +101,7 @@ theorem applyMacros_eol (ms : List Macro) : applyMacros ms [eol] = .ok [eol] := 
   rw [applyLoop]
   simp [findSingle, scanFrom, eol, SearchPos.start]
 
-/-- the name of the current file matters only to a top-level `#pragma once` -/
+/-- the id of the current file matters only to a top-level `#pragma once` -/
 theorem foldLines_cur_irrelevant (inc : Inc) (cur cur' : String) (s : State × List PTok) (ls : List Line)
     (hno : Line.pragmaOnce ∉ ls) : foldLines inc cur s ls = foldLines inc cur' s ls := by
   induction ls generalizing s with
@@ -215,11 +216,12 @@ theorem includeFile_onceGrows (h : Handler) (fuel : Nat) : OnceGrows (includeFil
     simp only [includeFile] at hr
     cases hn : h n with
     | none => simp [hn] at hr
-    | some lines =>
+    | some fd =>
+      obtain ⟨real, lines⟩ := fd
       simp only [hn] at hr
       split at hr
-      · exact runFile_once ih n st r [] hr
-      · exact runFile_once ih n st r lines hr
+      · exact runFile_once ih real st r [] hr
+      · exact runFile_once ih real st r lines hr
 
 /-- a top-level `#pragma once` line puts the current file into the set -/
 theorem foldLines_marks {inc : Inc} (hi : OnceGrows inc) (cur : String) (s r : State × List PTok)
